@@ -155,6 +155,8 @@ def corpus():
           mk(["chain", [["trend", 1], ["chain", [["moment"], ["knn", 2, "mean"]]]]], [es, ns], [d1], None, q, "corpus-nested"),
           mk(["vector", [["trend", 1], ["chain", [["trend", 0], ["knn", 1, "mean"]]]]], [es, ns], [d1, d2], [w1, w1[::-1]], q, "corpus-vector"),
           mk(["chain", [["moment"], ["vector", [["trend", 1], ["moment"]]]]], [es, ns], [d1, d2], None, q, "corpus-chain-of-vector"),
+          mk(["vector", [["trend", 1], ["trend", 1]]], [es, ns], [d1, d2], [[0.0, 2.0, 0.5, 4.0, 1.0, 0.0, 3.0, 2.0], w1[::-1]], q, "corpus-vector-zero-weight-in-one-component"),
+          mk(["vector", [["trend", 0], ["chain", [["trend", 1], ["moment"]]]]], [es, ns], [d1, d2], [w1, [1.0, 0.0, 0.5, 4.0, 0.0, 1.0, 3.0, 2.0]], q, "corpus-vector-zero-weight-in-one-component"),
           mk(["trend", 1], [es, ns], [d1], [w1], q, "corpus-filter-trend"),
           mk(["chain", [["trend", 1], ["moment"], ["knn", 1, "mean"]]], [es, ns], [[float(int(3 * v)) for v in d2]], None, q, "corpus-chain-intdata"),
           mk(["vector", [["chain", [["trend", 1], ["moment"]]], ["trend", 0]]], [es, ns], [d1, [float(int(3 * v)) for v in d2]], None, q,
@@ -215,6 +217,11 @@ def generate(rng, tier):
         q = [[reg[0] + (reg[1] - reg[0]) * k / 4.0 for k in range(5)], [reg[2] + (reg[3] - reg[2]) * ((3 * k) % 5) / 4.0 for k in range(5)]]
         if ncomp == 2 and rng.random() < 0.3:
             spec = ["vector", [["chain", rand_steps(rng, reg, npts, 1, weighted, 1)] if rng.random() < 0.5 else rand_gridder1(rng, 2) for _ in range(2)]]
+            if weights is not None and npts >= 8 and rng.random() < 0.4:
+                # observations flagged (weight exactly 0) in ONE component only: they still count, with their own weights, in the other
+                c_ = rng.randrange(2)
+                for k_ in rng.sample(range(npts), rng.randint(1, 2)):
+                    weights[c_][k_] = 0.0
         else:
             spec = ["chain", rand_steps(rng, reg, npts, ncomp, weighted)]
         tag = ""
